@@ -63,7 +63,8 @@ def _reg(pid, run, theorems=(), translator=("T1",), rule="", level_text="", leve
 _reg("C01", c01.run, translator=("T1", "T2", "T3"),
      theorems=["NirVerif.C01.edges_roundtrip", "NirVerif.C01.transport", "NirVerif.C01.nothing_added", "NirVerif.C01.type_tag",
                "NirVerif.C01.leaf_end_to_end", "NirVerif.C01.leaf_native_roundtrip", "NirVerif.C01.leaf_exact",
-               "NirVerif.C01.leaf_exact_conv2d", "NirVerif.C01.graph_end_to_end",
+               "NirVerif.C01.leaf_exact_conv2d", "NirVerif.C01.graph_end_to_end", "NirVerif.C01.graph_file_exact",
+               "NirVerif.C01.fileExact_spec",
                "NirVerif.C01.child_step", "NirVerif.C01.backVal_array",
                "NirVerif.C01.backVal_npscalar", "NirVerif.C01.backVal_int"],
      rule="Random graphs over all 17 primitives + nested graphs (depth <= 3), 0-8 nodes, arbitrary names (ASCII, Latin-1, "
@@ -87,7 +88,10 @@ _reg("C01", c01.run, translator=("T1", "T2", "T3"),
                 "included; any number of nodes, any names, any edge list; empty metadata), whenever write succeeds and "
                 "read returns a graph, that graph has exactly the same edges in order, empty metadata, the same set of "
                 "node names (in link-name order) and under every name the node the class constructor builds from the "
-                "transported field values of the original. PARTIAL: nested sub-graphs and non-empty metadata are covered "
+                "transported field values of the original; and when the children are constructor-built nodes of the parameter-"
+                "storing classes or Conv2d with file-native values, Inputs and Outputs, the graph read back IS the original "
+                "graph with its node dictionary re-ordered by link name (graph_file_exact: every node exactly itself, the "
+                "edge list exactly itself). PARTIAL: nested sub-graphs and non-empty metadata are covered "
                 "by transport/C16 theorems plus the correspondence run and the oracle, not by this theorem; that the "
                 "constructor applied to transported values yields an *equivalent* node is C05/C19 + oracle.",
      level_note="Lean kernel; hand-written models of to_dict/from_dict/write/read and of the h5py contract (create_dataset conversions, item[()], link names, iteration order), validated against the real library and real files on every run.")
@@ -220,7 +224,8 @@ _reg("C12", c12.run,
      level_note="Lean kernel; hand-written model of __post_init__/infer_types; histories with round trips rely on the oracle.")
 _reg("C13", c13.run, translator=("T1", "T2"),
      theorems=["NirVerif.C13.keys", "NirVerif.C13.no_types", "NirVerif.C13.roundtrip", "NirVerif.C13.roundtrip_exact",
-               "NirVerif.C13.roundtrip_exact_conv2d"],
+               "NirVerif.C13.roundtrip_exact_conv2d", "NirVerif.C13.roundtrip_exact_input", "NirVerif.C13.roundtrip_exact_output",
+               "NirVerif.C13.roundtrip_exact_flatten", "NirVerif.C13.graph_roundtrip_exact"],
      rule="Graphs of the C01 domain plus consistent graphs with erased (None) annotations: to_dict output checked for "
           "plain values and documented keys, for shared ids and shared memory with the graph, for strict (type-identical) "
           "equivalence of from_dict(to_dict(g)), and by mutating the dictionary and re-snapshotting the graph; the model's "
@@ -230,7 +235,9 @@ _reg("C13", c13.run, translator=("T1", "T2"),
                 "field values (None annotations carried); for a node built by the constructor of a class that stores its "
                 "parameters unchanged (Affine, Linear, Scale, Threshold, Delay, I, IF, LI, LIF, SumPool2d, AvgPool2d, Conv1d), and for Conv2d "
                 "(roundtrip_exact_conv2d: int -> pair normalisation is idempotent), "
-                "that is EXACTLY the same node (roundtrip_exact: a constructed node is the constructor applied to its own "
+                "and Input / Output / Flatten with their class-specific dictionaries (16 of the 17 leaf classes; CubaLIF's "
+                "materialised w_in is not covered), that is EXACTLY the same node; a flat graph of such nodes with any "
+                "edge list and any metadata round-trips to exactly the same graph (graph_roundtrip_exact) (roundtrip_exact: a constructed node is the constructor applied to its own "
                 "fields). Independence of mutable state cannot be expressed in a model of "
                 "immutable values: it is observed on the real objects by the oracle (ids, shared memory, mutation).",
      level_note="Lean kernel; hand-written models of to_dict/from_dict/write/read and of the h5py contract (create_dataset conversions, item[()], link names, iteration order), validated against the real library and real files on every run.")
